@@ -1,6 +1,7 @@
 import NomtModel.Store.ImgCheck
 import NomtModel.Store.ImgLemmas
 import NomtModel.Store.PageIdLemmas
+import NomtModel.Store.LeafRt
 import NomtModel.Store.ConstantsFormats
 import NomtModel.Store.ConstantsAlloc
 /-!
@@ -100,6 +101,31 @@ example : decodePageId (encodePageId (List.replicate 42 0)) = some (List.replica
     encodePageId (List.replicate 42 63) = encodePageId (List.replicate 41 63) ∧
     encodePageId (15 :: List.replicate 41 7) = encodePageId (List.replicate 41 7) ∧
     decodePageId (encodePageId [0]) = some [0] ∧ encodePageId [0] = 64 ∧ decodePageId 1 = none := by decide
+
+/-! ## leaf pages -/
+
+/-- T16.rt (leaf page): the mirror of `LeafBuilder` (`new(n, total)`, `push_cell` × n, `finish`:
+`n` u16 | (key ‖ u16 (offset | overflow bit)) × n | untouched bytes `pad` | cells, the first cell at
+`PAGE_SIZE − total`) followed by `decodeLeaf` gives the entries back — keys, overflow flags and cell
+bytes — for ANY content `pad` of the gap, under the decidable guard `leafOK`: at least one entry,
+32-byte keys, inline cells `≤ MAX_LEAF_VALUE_SIZE`, overflow cells `8 + 32 + 4k` bytes with
+`1 ≤ k ≤ 15`, and header + pointers + gap + cells = one page -/
+theorem T16_rt_leaf (es : List LeafEntry) (pad : List UInt8) (hok : leafOK es pad = true) :
+    (encodeLeaf es pad).size = PAGE ∧ decodeLeaf (encodeLeaf es pad) = .ok es :=
+  ⟨size_encodeLeaf es pad hok, leaf_rt es pad hok⟩
+
+/-- an inline value of 3 bytes, an overflow cell with one page number, an empty value; gap of
+`4096 − 2 − 3·34 − 47` bytes of `0xAA` -/
+def sampleLeaf : List LeafEntry :=
+  [⟨(List.replicate 32 1).toByteArray, false, [7, 8, 9].toByteArray⟩,
+   ⟨(List.replicate 32 2).toByteArray, true, (List.replicate 44 5).toByteArray⟩,
+   ⟨(List.replicate 32 3).toByteArray, false, ByteArray.empty⟩]
+example : leafOK sampleLeaf (List.replicate 3945 0xAA) = true := by decide +kernel
+example : decodeLeaf (encodeLeaf sampleLeaf (List.replicate 3945 0xAA)) = .ok sampleLeaf :=
+  (T16_rt_leaf _ _ (by decide +kernel)).2
+/-- the guard is needed: an inline value longer than `MAX_LEAF_VALUE_SIZE` is refused -/
+example : leafOK [⟨(List.replicate 32 1).toByteArray, false, (List.replicate 1333 0).toByteArray⟩]
+    (List.replicate 2727 0) = false := by decide +kernel
 
 /-! ## the decoders' constants are the constants of the Rust source
 
